@@ -5,7 +5,7 @@
 #include "harness/RW/common.h"
 #include "x_reader_core.c"
 #include "x_writer_core.c"
-#if !NATIVE8
+#if !NATIVE
 #include "contracts/C03_spec.h"
 #include "x_bswap_spec.c"
 #include "x_platform.h"
@@ -46,23 +46,28 @@ StoredT g_self_raw;
 #include "x_rw_tmpl.inc"
 #include ONE_INC
 
-#ifdef FN_RD_GET
-void h_rd_get(void) { StringReader* r; IN_STATE; bool in_advance; FN_RD_GET(r, in_advance); VERIF_REACH(); }
-void h_rd_pget(void) { StringReader* r; IN_STATE; size_t in_offset; FN_RD_PGET(r, in_offset); VERIF_REACH(); }
+#if FKIND == 1
+void h_fn(void) { StringReader* r; IN_STATE; bool in_advance; FN(r, in_advance); VERIF_REACH(); }
+#elif FKIND == 2
+void h_fn(void) { StringReader* r; IN_STATE; size_t in_offset; FN(r, in_offset); VERIF_REACH(); }
+#elif FKIND == 3
+void h_fn(void) { StringWriter* w; IN_STATE; SPEC_T in_v; FN(w, in_v); VERIF_REACH(); }
+#elif FKIND == 4
+void h_fn(void) { StringWriter* w; IN_STATE; size_t in_offset; SPEC_T in_v; FN(w, in_offset, in_v); VERIF_REACH(); }
+#elif FKIND == 5
+void h_fn(void) { BufferWriter* w; IN_STATE; SPEC_T in_v; FN(w, in_v); VERIF_REACH(); }
+#elif FKIND == 6
+void h_fn(void) { BufferWriter* w; IN_STATE; size_t in_offset; SPEC_T in_v; FN(w, in_offset, in_v); VERIF_REACH(); }
 #endif
-void h_sw_put(void) { StringWriter* w; IN_STATE; ExposedT in_v; FN_SW_PUT(w, in_v); VERIF_REACH(); }
-void h_sw_pput(void) { StringWriter* w; IN_STATE; size_t in_offset; ExposedT in_v; FN_SW_PPUT(w, in_offset, in_v); VERIF_REACH(); }
-void h_bw_put(void) { BufferWriter* w; IN_STATE; ExposedT in_v; FN_BW_PUT(w, in_v); VERIF_REACH(); }
-void h_bw_pput(void) { BufferWriter* w; IN_STATE; size_t in_offset; ExposedT in_v; FN_BW_PPUT(w, in_offset, in_v); VERIF_REACH(); }
 
-#ifdef FN_RD_GET
+#if FKIND == 7
 /* C01 round trip, a lemma over the two contracts: a value appended with put_X and read back with get_X at the same
  * position is bit-identical, and the cursor advances by exactly the encoded width. */
 #ifndef LEMMA_MAX
 #define LEMMA_MAX 0x100000
 #endif
 void l_roundtrip_sw(void) {
-  IN_STATE; ExposedT in_v; verif_exc = 0;
+  IN_STATE; SPEC_T in_v; verif_exc = 0;
   StringWriter* w = malloc(sizeof(StringWriter));
   __CPROVER_assume(w != 0);
   __CPROVER_assume(in_wcap <= LEMMA_MAX && in_wsize <= in_wcap && WB <= in_wcap - in_wsize);
@@ -70,14 +75,14 @@ void l_roundtrip_sw(void) {
   __CPROVER_assume(w->data.data != 0);
   __CPROVER_assume(in_vk >= in_wsize && in_vk - in_wsize < WB);   /* ghost byte index inside the appended value */
   __CPROVER_assume(in_vk < in_wsize ==> in_vval == (uint8_t)w->data.data[in_vk]);
-  FN_SW_PUT(w, in_v);
+  FN(w, in_v);
   StringReader* r = malloc(sizeof(StringReader));
   __CPROVER_assume(r != 0);
   r->data = (const uint8_t*)w->data.data; r->length = w->data.size; r->offset = in_wsize;
   g_len = r->length; g_off = r->offset;
-  ExposedT back = FN_RD_GET(r, 1);
+  SPEC_T back = FN2(r, 1);
   __CPROVER_assert(verif_exc == 0, "reading back what was appended does not throw");
-  __CPROVER_assert(NAMED_BYTE(BITS(back), in_vk - in_wsize) == NAMED_BYTE(BITS(in_v), in_vk - in_wsize), "every byte (ghost index) of get_X(put_X(v)) equals that byte of v: bit-identical");
+  __CPROVER_assert(SBYTE(SBITS(back), in_vk - in_wsize) == SBYTE(SBITS(in_v), in_vk - in_wsize), "every byte (ghost index) of get_X(put_X(v)) equals that byte of v: bit-identical");
   __CPROVER_assert(r->offset == in_wsize + WB && r->offset == r->length, "cursor advanced by exactly the encoded width");
   VERIF_REACH();
 }
